@@ -10,7 +10,7 @@ import (
 // C13.iter (also serves C04): structural clauses of avfs.PathIterator.
 
 func init() {
-	register(&Rule{ID: "C13.iter", Floor: 6, Also: []string{"C04", "C07"}, AlsoOnly: map[string][]string{"C07": {" cursor"}}, AlsoFloor: map[string]int{"C07": 1},
+	register(&Rule{ID: "C13.iter", Floor: 6, Also: []string{"C04", "C07", "C17"}, AlsoOnly: map[string][]string{"C07": {" cursor", " volume"}, "C17": {" volume"}}, AlsoFloor: map[string]int{"C07": 1, "C17": 1},
 		Text: "PathIterator: Left, Part and Right slice the path at the same two cursors ([:start], [start:end], [end:]) so that they always reassemble it; Next moves start to end+1 and end to the next separator or the end of the path; ReplacePart assigns Join(path[:start], new, path[end:]) (Join(new, path[end:]) for an absolute replacement, after which the length of the volume name is computed again from the new path) and keeps the cursor only when the whole prefix path[:start] — compared with the same bound on both sides — is unchanged, otherwise it restarts",
 		Run:  c13Iter})
 }
@@ -203,6 +203,17 @@ func c13Iter(rc *RuleCtx) {
 		}
 		if !newPath {
 			whyVol = "the length of the volume name is computed from something else than the new path"
+			return
+		}
+		// Reset rewinds the cursor to the end of the volume name: the new length must be stored before it is called
+		late := false
+		eachCall(f, func(ci ssa.CallInstruction) {
+			if fn := calleeFunc(ci); fn != nil && fn.Name() == "Reset" && instrReaches(ci, st) {
+				late = true
+			}
+		})
+		if late {
+			whyVol = "the length of the volume name is stored after the Reset that uses it: the cursor is rewound with the length of the old volume name"
 			return
 		}
 		okVol = true
